@@ -51,7 +51,29 @@ def molecule_pair(draw, max_atoms=40, kinds_big=("tree", "chain", "star", "cycli
     rng = np.random.default_rng(draw(gen.SEEDS))
     spos = gen.walk_geometry(ns, start["edges"], rng, lo=0.15, hi=0.5)
     epos = gen.walk_geometry(ne, end["edges"], rng, lo=0.1, hi=0.3) + rng.uniform(-3, 3, 3)
-    return {"relation": relation, "start": gen.with_coords(start, spos), "end": gen.with_coords(end, epos)}
+    degenerate = False
+    if draw(st.integers(0, 3)) == 0:
+        # a branching atom of the mobile molecule whose first three neighbours are exactly collinear
+        # (beads placed on a grid): a legitimate geometry for which no perpendicular direction exists
+        mspec, mpos = (start, spos) if mobile_is_start else (end, epos)
+        nb = {}
+        for a, b in mspec["edges"]:
+            nb.setdefault(a, []).append(b)
+            nb.setdefault(b, []).append(a)
+        hubs = [a for a, v in nb.items() if len(v) >= 3]
+        if hubs:
+            hub = hubs[draw(st.integers(0, len(hubs) - 1))]
+            n1, n2, n3 = sorted(nb[hub])[:3]
+            base = np.round(mpos[hub] * 4) / 4
+            d = np.array([[1, 0, 0], [0, 1, 0], [1, 1, 0], [1, -1, 1]][draw(st.integers(0, 3))], float) * 0.25
+            off = np.array([0, 0, 0.25]) if d[2] == 0 else np.array([0.25, 0, 0])
+            mpos[hub] = base
+            mpos[n1] = base + off - d
+            mpos[n2] = base + off
+            mpos[n3] = base + off + d
+            degenerate = True
+    return {"relation": relation, "start": gen.with_coords(start, spos), "end": gen.with_coords(end, epos),
+            "degenerate_mobile": degenerate}
 
 
 @st.composite
